@@ -141,9 +141,9 @@ theorem applySet_succ (c : Claims) (op : SetOp) (h : accepts c.prof op = true) :
         · rw [h']; simp only [Outcome.bind]; cases sw <;> rfl
         · rw [h'] at hok; simp [Outcome.bind] at hok
     · cases l with
-      | none => simp only [Option.getD, validateAndConvert, Outcome.bind]; cases sw <;> rfl
+      | none => simp [accepts] at h
       | some vals =>
-        simp only [Option.getD] at hok ⊢
+        simp only [] at hok ⊢
         rcases validateAndConvert_cases vals with h' | ⟨m, h'⟩
         · rw [h']; simp only [Outcome.bind]; cases sw <;> rfl
         · rw [h'] at hok; simp [Outcome.bind] at hok
@@ -188,9 +188,9 @@ theorem applySet_fail (c : Claims) (op : SetOp) (h : accepts c.prof op = false) 
         · rw [h'] at hne; simp [Outcome.bind] at hne
         · rw [h']; simp only [Outcome.bind]; cases sw <;> rfl
     · cases l with
-      | none => simp [accepts] at h
+      | none => rfl
       | some vals =>
-        simp only [Option.getD] at hne ⊢
+        simp only [] at hne ⊢
         rcases validateAndConvert_cases vals with h' | ⟨m, h'⟩
         · rw [h'] at hne; simp [Outcome.bind] at hne
         · rw [h']; simp only [Outcome.bind]; cases sw <;> rfl
